@@ -16,7 +16,7 @@ transaction coordinator, under scripted or seeded fault fates.  Returned (JSON-a
   rc        tp -> uids a read_committed reader sees, ru -> uids in the log; class of every uid
   group_offsets  committed offsets of the consumer group used with send_offsets_to_transaction
 
-Program ops: "begin", "send:<p>", "burst:<p>:<n>" (n concurrent send() calls), "offsets:<o>", "commit", "abort",
+Program ops: "begin", "send:<p>", "burst:<p>[+<q>..]:<n>" (n concurrent send() calls, spread over the listed partitions), "offsets:<o>", "commit", "abort",
 "move" / "gmove" (transaction / group coordinator moves to another broker), "ctx_ok:<p>", "ctx_exc:<p>", "ctx_slow:<p>" (fire-and-forget send, body runs 0.6 s more), "sleep:<s>", "replace" (start instance B with the same transactional id; later ops with
 prefix "B." go to it, unprefixed ones to A), "kill" (kill -9 of instance A).
 Partition "u" is a partition of an unauthorized topic (TopicAuthorizationFailed at AddPartitionsToTxn).
@@ -183,7 +183,9 @@ def run_history(P):
                     elif name == "burst":
                         n = int(args[1])
                         tn = in_txn[who] if in_txn[who] is not None else -1
-                        res = await asyncio.gather(*[do_send(who, args[0], tn) for _ in range(n)], return_exceptions=True)
+                        parts = args[0].split("+")       # "burst:0+1:4": concurrent sends spread over partitions 0 and 1
+                        res = await asyncio.gather(*[do_send(who, parts[i % len(parts)], tn) for i in range(n)],
+                                                   return_exceptions=True)
                         rec["uids"] = [r for r in res if isinstance(r, str)]
                         errs = [r for r in res if isinstance(r, BaseException)]
                         if errs:
